@@ -267,14 +267,20 @@ Inductive reach (fl : flags) (s0 : state) : state -> Prop :=
 Definition pend_ok (c : call) : Prop :=
   c_fut c = FUnres /\ (c_pc c = PRegd \/ c_pc c = PSched \/ c_pc c = PAwait \/ c_pc c = PDone (RExc XAttr)).
 
+Definition ph_ok (l : lstate) : bool := match l with LClean _ _ _ | LCrash => false | _ => true end.
+(* the listener task has not torn anything down yet: registrations stay in pending_responses *)
+Definition ph_live (l : lstate) : bool := match l with LRun | LInit | LErrWait _ => true | _ => false end.
+(* self.writer may still be set *)
+Definition ph_up (l : lstate) : bool := match l with LRun | LErrWait _ => true | _ => false end.
+
 Record inv (s : state) : Prop := {
   i_nodup : NoDup (pending s);
   i_pend : forall k, In k (pending s) -> exists c, nth_error (calls s) k = Some c /\ pend_ok c;
-  i_lst : lst s = LRun \/ lst s = LExit \/ lst s = LInit;
-  i_writer : writer s = is_run (lst s);
+  i_lst : ph_ok (lst s) = true;
+  i_writer : (lst s = LRun -> writer s = true) /\ (ph_up (lst s) = false -> writer s = false);
   i_reg : forall k c, nth_error (calls s) k = Some c -> (c_pc c = PRegd \/ c_pc c = PSched \/ c_pc c = PAwait) ->
-                      c_fut c = FUnres -> (lst s = LRun \/ lst s = LInit) -> In k (pending s);
-  i_await : forall k c, nth_error (calls s) k = Some c -> c_pc c = PAwait -> c_fut c = FUnres -> lst s = LRun
+                      c_fut c = FUnres -> ph_live (lst s) = true -> In k (pending s);
+  i_await : forall k c, nth_error (calls s) k = Some c -> c_pc c = PAwait -> c_fut c = FUnres -> ph_up (lst s) = true
 }.
 
 Lemma set_fut_idem : forall f c, set_fut f (set_fut f c) = set_fut f c.
@@ -325,8 +331,8 @@ Proof.
   intros c0 closers. constructor; cbn.
   - constructor.
   - intros k [].
-  - right; right; reflexivity.
   - reflexivity.
+  - split; [discriminate|reflexivity].
   - intros k c Hn Hp. rewrite nth_error_map in Hn. destruct (nth_error closers k); [|discriminate].
     inversion Hn; subst. cbn in Hp. destruct Hp as [Hp|[Hp|Hp]]; discriminate.
   - intros k c Hn Hp. rewrite nth_error_map in Hn. destruct (nth_error closers k); [|discriminate].
@@ -336,8 +342,8 @@ Qed.
 (* a step that only rewrites call k *)
 Lemma inv_updc : forall s k c f, inv s -> nth_error (calls s) k = Some c ->
   (In k (pending s) -> pend_ok (f c)) ->
-  ((c_pc (f c) = PRegd \/ c_pc (f c) = PSched \/ c_pc (f c) = PAwait) -> c_fut (f c) = FUnres -> (lst s = LRun \/ lst s = LInit) -> In k (pending s)) ->
-  (c_pc (f c) = PAwait -> c_fut (f c) = FUnres -> lst s = LRun) ->
+  ((c_pc (f c) = PRegd \/ c_pc (f c) = PSched \/ c_pc (f c) = PAwait) -> c_fut (f c) = FUnres -> ph_live (lst s) = true -> In k (pending s)) ->
+  (c_pc (f c) = PAwait -> c_fut (f c) = FUnres -> ph_up (lst s) = true) ->
   inv (updc s k f).
 Proof.
   intros s k c f Hi Hn Ha Hb Hc. constructor; unfold updc, with_calls; cbn [calls pending lst writer].
@@ -355,16 +361,17 @@ Proof.
     + exact (i_await s Hi j c' Hj).
 Qed.
 
-Lemma inv_teardown : forall fl e s, fl_ok fl ->
+(* the finally up to `await on_close` *)
+Lemma inv_finally_top : forall fl e s, fl_ok fl ->
   (forall j c, nth_error (calls s) j = Some c -> c_pc c = PAwait -> c_fut c = FUnres -> In j (pending s)) ->
-  inv (teardown fl e s).
+  inv (finally_top fl e s).
 Proof.
-  intros fl e s [Hs Hw] Hp. unfold teardown. rewrite Hs, Hw. constructor; cbn [calls pending lst writer].
+  intros fl e s [Hs Hw] Hp. unfold finally_top. rewrite Hs, Hw. constructor; cbn [calls pending lst writer].
   - constructor.
   - intros k [].
-  - right; left; reflexivity.
   - reflexivity.
-  - intros k c _ _ _ [H|H]; discriminate.
+  - split; [discriminate|reflexivity].
+  - intros k c _ _ _ H. discriminate.
   - intros k c Hn Hpc Hf. exfalso. rewrite fail_all_nth in Hn.
     destruct (nth_error (calls s) k) as [c0|] eqn:E; [|discriminate]. inversion Hn; subst c. clear Hn.
     destruct (mem_nat k (pending s)) eqn:Em.
@@ -373,9 +380,36 @@ Proof.
       apply mem_nat_In in Hin. rewrite Hin in Em. discriminate.
 Qed.
 
-Lemma inv_await_pending : forall s, inv s -> lst s = LRun ->
+Lemma inv_await_pending : forall s, inv s -> ph_live (lst s) = true ->
   forall j c, nth_error (calls s) j = Some c -> c_pc c = PAwait -> c_fut c = FUnres -> In j (pending s).
 Proof. intros s Hi Hl j c Hn Hp Hf. apply (i_reg s Hi j c Hn); auto. Qed.
+
+(* changes of running / is_open only *)
+Lemma inv_same : forall s s', inv s -> calls s' = calls s -> pending s' = pending s -> lst s' = lst s -> writer s' = writer s -> inv s'.
+Proof.
+  intros s s' Hi Ec Ep El Ew. constructor; rewrite ?Ec, ?Ep, ?El, ?Ew.
+  - exact (i_nodup s Hi). - exact (i_pend s Hi). - exact (i_lst s Hi). - exact (i_writer s Hi).
+  - exact (i_reg s Hi). - exact (i_await s Hi).
+Qed.
+
+(* the handler starts awaiting on_error: nothing is torn down yet *)
+Lemma inv_errwait : forall s e, inv s -> ph_live (lst s) = true -> inv (with_lst s (LErrWait e)).
+Proof.
+  intros s e Hi Hl. constructor; unfold with_lst; cbn [calls pending lst writer].
+  - exact (i_nodup s Hi).
+  - exact (i_pend s Hi).
+  - reflexivity.
+  - split; [discriminate|cbn; discriminate].
+  - intros k c Hn Hp Hf _. exact (i_reg s Hi k c Hn Hp Hf Hl).
+  - intros; reflexivity.
+Qed.
+
+Lemma inv_teardown : forall fl e s, fl_ok fl -> inv s -> ph_live (lst s) = true -> inv (teardown fl e s).
+Proof.
+  intros fl e s Hfl Hi Hl. unfold teardown.
+  destruct e; try (apply inv_errwait; assumption).
+  apply inv_finally_top; [exact Hfl|exact (inv_await_pending s Hi Hl)].
+Qed.
 
 Lemma is_run_true : forall l, is_run l = true -> l = LRun.
 Proof. intros []; cbn; intros; try discriminate; reflexivity. Qed.
@@ -399,10 +433,13 @@ Ltac pcs := repeat match goal with
   | H : PSched = _ |- _ => discriminate H | H : PAwait = _ |- _ => discriminate H | H : PDone _ = _ |- _ => discriminate H
   end.
 
+Lemma ph_up_live : forall l, ph_up l = true -> ph_live l = true.
+Proof. intros []; cbn; intros; try discriminate; reflexivity. Qed.
+
 Lemma inv_step : forall fl s a s' ev, fl_ok fl -> inv s -> step fl s a = Some (s', ev) -> inv s'.
 Proof.
   intros fl s a s' ev Hfl Hi Hs.
-  destruct a as [k|k|k|k|k|ok|k ok|ok| | | |]; cbn [step] in Hs.
+  destruct a as [k|k|k|k|k|ok|k ok|ok| | | | | |]; cbn [step] in Hs.
   - (* AInvoke *)
     destruct (nth_error (calls s) k) as [c|] eqn:Hn; [|discriminate].
     destruct (c_pc c) eqn:Hpc; try discriminate.
@@ -416,7 +453,7 @@ Proof.
     assert (Hnp : ~ In k (pending s)).
     { apply (pend_not s k c Hi Hn). rewrite Hpc. intros H. pcs. }
     assert (Hl : match lst s with LClean e i _ => LClean e i true | l => l end = lst s).
-    { destruct (i_lst s Hi) as [E|[E|E]]; rewrite E; reflexivity. }
+    { pose proof (i_lst s Hi) as E. destruct (lst s); cbn in E; try discriminate; reflexivity. }
     rewrite Hl in Hs. inversion Hs; subst. clear Hs.
     constructor; unfold with_lst, with_pending, updc, with_calls; cbn [calls pending lst writer].
     + apply NoDup_snoc; [exact (i_nodup s Hi)|exact Hnp].
@@ -443,10 +480,11 @@ Proof.
     destruct (nth_error (calls s) k) as [c|] eqn:Hn; [|discriminate].
     destruct (c_pc c) eqn:Hpc; try discriminate.
     destruct (writer s) eqn:Hw; inversion Hs; subst; clear Hs.
-    + assert (Hr : lst s = LRun) by (apply is_run_true; rewrite <- (i_writer s Hi); exact Hw).
+    + assert (Hr : ph_up (lst s) = true).
+      { destruct (ph_up (lst s)) eqn:E; [reflexivity|]. rewrite (proj2 (i_writer s Hi) E) in Hw. discriminate. }
       apply (inv_updc s k c _ Hi Hn).
       * intros Hin. split; [exact (pend_fut s k c Hi Hn Hin)|right; right; left; reflexivity].
-      * cbn. intros _ Hf _. apply (i_reg s Hi k c Hn); [right; left; exact Hpc|exact Hf|left; exact Hr].
+      * cbn. intros _ Hf _. apply (i_reg s Hi k c Hn); [right; left; exact Hpc|exact Hf|exact (ph_up_live _ Hr)].
       * intros _ _. exact Hr.
     + apply (inv_updc s k c _ Hi Hn).
       * intros Hin. split; [exact (pend_fut s k c Hi Hn Hin)|right; right; right; reflexivity].
@@ -464,17 +502,19 @@ Proof.
     + constructor; cbn [calls pending lst writer].
       * exact (i_nodup s Hi).
       * exact (i_pend s Hi).
-      * left; reflexivity.
       * reflexivity.
-      * intros k c Hn Hp Hf _. apply (i_reg s Hi k c Hn Hp Hf). right. exact Hl.
+      * split; [reflexivity|cbn; discriminate].
+      * intros k c Hn Hp Hf _. apply (i_reg s Hi k c Hn Hp Hf). rewrite Hl. reflexivity.
       * intros; reflexivity.
-    + apply inv_teardown; [exact Hfl|]. cbn [calls pending with_copen].
-      intros j c Hn Hp Hf. pose proof (i_await s Hi j c Hn Hp Hf) as E. rewrite Hl in E. discriminate.
+    + assert (Hi' : inv (with_copen s false)) by (apply (inv_same s); [exact Hi|reflexivity|reflexivity|reflexivity|reflexivity]).
+      first [apply inv_errwait; [exact Hi'|cbn [lst with_copen]; rewrite Hl; reflexivity]
+            |apply inv_teardown; [exact Hfl|exact Hi'|cbn [lst with_copen]; rewrite Hl; reflexivity]].
   - (* AResp *)
     destruct (nth_error (calls s) k) as [c|] eqn:Hn; [|discriminate].
     destruct (c_sent c && is_run (lst s)) eqn:Hg; [|discriminate].
     apply andb_true_iff in Hg. destruct Hg as [_ Hr]. apply is_run_true in Hr.
-    pose proof (inv_await_pending s Hi Hr) as Hap.
+    assert (Hlive : ph_live (lst s) = true) by (rewrite Hr; reflexivity).
+    pose proof (inv_await_pending s Hi Hlive) as Hap.
     destruct (mem_nat k (pending s)) eqn:Em.
     + (* matched: pop + set_result *)
       set (s1 := with_pending (updc s k (set_fut (FVal (resp_body k c)))) (remove_nat k (pending s))) in *.
@@ -499,26 +539,44 @@ Proof.
         -- intros j c' Hj Hp Hf. rewrite nth_error_upd in Hj. destruct (Nat.eqb k j) eqn:E.
            ++ apply Nat.eqb_eq in E. subst j. rewrite Hn in Hj. cbn in Hj. inversion Hj; subst. cbn in Hf. discriminate.
            ++ exact (i_await s Hi j c' Hj Hp Hf).
-      * inversion Hs; subst; clear Hs. apply inv_teardown; [exact Hfl|]. exact Hap1.
+      * inversion Hs; subst; clear Hs. cbn [teardown]. apply inv_finally_top; [exact Hfl|]. exact Hap1.
     + destruct (resp_body k c) eqn:Eb.
       * unfold dispatch_msg in Hs. destruct ok; inversion Hs; subst; clear Hs; [exact Hi|].
-        apply inv_teardown; [exact Hfl|exact Hap].
-      * inversion Hs; subst; clear Hs. apply inv_teardown; [exact Hfl|exact Hap].
+        first [apply inv_errwait; [exact Hi|exact Hlive]|apply inv_teardown; [exact Hfl|exact Hi|exact Hlive]].
+      * inversion Hs; subst; clear Hs. cbn [teardown]. apply inv_finally_top; [exact Hfl|exact Hap].
   - (* APush *)
     destruct (is_run (lst s)) eqn:Hr; [|discriminate]. apply is_run_true in Hr.
     unfold dispatch_msg in Hs. destruct ok; inversion Hs; subst; clear Hs; [exact Hi|].
-    apply inv_teardown; [exact Hfl|exact (inv_await_pending s Hi Hr)].
+    first [apply inv_errwait; [exact Hi|rewrite Hr; reflexivity]|apply inv_teardown; [exact Hfl|exact Hi|rewrite Hr; reflexivity]].
   - (* ACloseReq *)
     destruct (is_run (lst s)) eqn:Hr; [|discriminate]. apply is_run_true in Hr.
-    inversion Hs; subst; clear Hs. apply inv_teardown; [exact Hfl|exact (inv_await_pending s Hi Hr)].
+    inversion Hs; subst; clear Hs. cbn [teardown]. apply inv_finally_top; [exact Hfl|].
+    apply (inv_await_pending s Hi). rewrite Hr. reflexivity.
   - (* ACut *)
     destruct (is_run (lst s)) eqn:Hr; [|discriminate]. apply is_run_true in Hr.
-    inversion Hs; subst; clear Hs. apply inv_teardown; [exact Hfl|exact (inv_await_pending s Hi Hr)].
+    inversion Hs; subst; clear Hs.
+    first [apply inv_errwait; [exact Hi|rewrite Hr; reflexivity]|apply inv_teardown; [exact Hfl|exact Hi|rewrite Hr; reflexivity]].
   - (* AReset *)
     destruct (is_run (lst s)) eqn:Hr; [|discriminate]. apply is_run_true in Hr.
-    inversion Hs; subst; clear Hs. apply inv_teardown; [exact Hfl|exact (inv_await_pending s Hi Hr)].
+    inversion Hs; subst; clear Hs.
+    assert (Hi' : inv (with_copen s false)) by (apply (inv_same s); [exact Hi|reflexivity|reflexivity|reflexivity|reflexivity]).
+    first [apply inv_errwait; [exact Hi'|cbn [lst with_copen]; rewrite Hr; reflexivity]
+          |apply inv_teardown; [exact Hfl|exact Hi'|cbn [lst with_copen]; rewrite Hr; reflexivity]].
   - (* AClean: the loop does not exist when a copy is iterated *)
-    destruct (i_lst s Hi) as [E|[E|E]]; rewrite E in Hs; discriminate.
+    pose proof (i_lst s Hi) as E. destruct (lst s); cbn in E; discriminate.
+  - (* AErrDone *)
+    destruct (lst s) eqn:Hl; try discriminate. inversion Hs; subst; clear Hs.
+    apply inv_finally_top; [exact Hfl|]. apply (inv_await_pending s Hi). rewrite Hl. reflexivity.
+  - (* ACloseDone *)
+    destruct (lst s) eqn:Hl; try discriminate. inversion Hs; subst; clear Hs.
+    assert (Hw : writer s = false) by (apply (proj2 (i_writer s Hi)); rewrite Hl; reflexivity).
+    constructor; cbn [calls pending lst writer].
+    + exact (i_nodup s Hi).
+    + exact (i_pend s Hi).
+    + reflexivity.
+    + split; [discriminate|]. intros _. rewrite Hw. destruct (f_clear_writer_late fl); reflexivity.
+    + intros k c _ _ _ H. discriminate.
+    + intros k c Hn Hp Hf. pose proof (i_await s Hi k c Hn Hp Hf) as E. rewrite Hl in E. discriminate.
 Qed.
 
 Lemma inv_reach : forall fl c0 closers s, fl_ok fl -> reach fl (init c0 closers) s -> inv s.
@@ -546,12 +604,20 @@ Proof.
   destruct (mem_nat k pend); [cbn in Hf; discriminate|exact Hf].
 Qed.
 
+Lemma finally_top_fut : forall fl e s k c c' b, nth_error (calls s) k = Some c ->
+  nth_error (calls (finally_top fl e s)) k = Some c' -> c_fut c' = FVal b -> c_fut c = FVal b.
+Proof.
+  intros fl e s k c c' b Hn Hn' Hf. unfold finally_top in Hn'. destruct (f_snapshot fl); cbn [calls] in Hn'.
+  - exact (fail_all_fut e (pending s) (calls s) k c c' b Hn Hn' Hf).
+  - rewrite Hn in Hn'. inversion Hn'; subst. exact Hf.
+Qed.
+
 Lemma teardown_fut : forall fl e s k c c' b, nth_error (calls s) k = Some c ->
   nth_error (calls (teardown fl e s)) k = Some c' -> c_fut c' = FVal b -> c_fut c = FVal b.
 Proof.
-  intros fl e s k c c' b Hn Hn' Hf. unfold teardown in Hn'. destruct (f_snapshot fl); cbn [calls] in Hn'.
-  - exact (fail_all_fut e (pending s) (calls s) k c c' b Hn Hn' Hf).
-  - rewrite Hn in Hn'. inversion Hn'; subst. exact Hf.
+  intros fl e s k c c' b Hn Hn' Hf. unfold teardown in Hn'.
+  destruct e; try (cbn [calls with_lst] in Hn'; rewrite Hn in Hn'; inversion Hn'; subst; exact Hf).
+  exact (finally_top_fut fl _ s k c c' b Hn Hn' Hf).
 Qed.
 
 Lemma updc_fut_same : forall s j f k c c', (forall x, c_fut (f x) = c_fut x) ->
@@ -579,7 +645,7 @@ Proof.
     destruct (Hfx c) as [E|[E|[e E]]]; rewrite E in Hf; [exact (Hne Hf)|discriminate|discriminate]. }
   assert (Htd : forall e s0, calls s0 = calls s -> nth_error (calls (teardown fl e s0)) k = Some c' -> False).
   { intros e s0 Hc Ht. apply Hne. apply (teardown_fut fl e s0 k c c' b); [rewrite Hc; exact Hn|exact Ht|exact Hf]. }
-  destruct a as [j|j|j|j|j|ok|j ok|ok| | | |]; cbn [step] in Hs.
+  destruct a as [j|j|j|j|j|ok|j ok|ok| | | | | |]; cbn [step] in Hs.
   - destruct (nth_error (calls s) j) as [cj|]; [|discriminate]. destruct (c_pc cj); try discriminate.
     exfalso. destruct (c_close cj && negb (running s)); [|destruct (copen s)]; inversion Hs; subst;
       (eapply Hsame; [|exact Hn']; intros x; left; reflexivity).
@@ -593,7 +659,7 @@ Proof.
     exfalso. destruct (c_fut cj); try discriminate; inversion Hs; subst; (eapply Hsame; [|exact Hn']; intros x; left; reflexivity).
   - exfalso. destruct (lst s); try discriminate. destruct ok; inversion Hs; subst.
     + cbn [calls] in Hn'. rewrite Hn in Hn'. inversion Hn'; subst. exact (Hne Hf).
-    + exact (Htd _ (with_copen s false) eq_refl Hn').
+    + first [exact (Htd _ (with_copen s false) eq_refl Hn')|(cbn [calls with_lst with_copen with_running] in Hn'; rewrite Hn in Hn'; inversion Hn'; subst; exact (Hne Hf))|(apply Hne; eapply finally_top_fut; [|exact Hn'|exact Hf]; exact Hn)].
   - destruct (nth_error (calls s) j) as [cj|] eqn:Hj; [|discriminate].
     destruct (c_sent cj && is_run (lst s)); [|discriminate].
     destruct (mem_nat j (pending s)) eqn:Em.
@@ -609,7 +675,7 @@ Proof.
       destruct (resp_body j cj) eqn:Eb.
       * inversion Hs; subst. exact (H1 c' Hn' Hf).
       * inversion Hs; subst. clear Hs.
-        unfold teardown in Hn'. destruct (f_snapshot fl); cbn [calls with_running] in Hn'.
+        cbn [teardown] in Hn'. unfold finally_top in Hn'. destruct (f_snapshot fl); cbn [calls with_running] in Hn'.
         -- rewrite fail_all_nth in Hn'.
            destruct (nth_error (calls s1) k) as [c1|] eqn:Hc1; [|discriminate]. inversion Hn'; subst c'. clear Hn'.
            match type of Hf with context [if ?x then _ else _] => destruct x end; [cbn in Hf; discriminate|]. exact (H1 c1 eq_refl Hf).
@@ -617,32 +683,40 @@ Proof.
     + exfalso. destruct (resp_body j cj).
       * unfold dispatch_msg in Hs. destruct ok; inversion Hs; subst.
         -- rewrite Hn in Hn'. inversion Hn'; subst. exact (Hne Hf).
-        -- exact (Htd _ s eq_refl Hn').
-      * inversion Hs; subst. exact (Htd _ (with_running s false) eq_refl Hn').
+        -- first [exact (Htd _ s eq_refl Hn')|(cbn [calls with_lst with_copen with_running] in Hn'; rewrite Hn in Hn'; inversion Hn'; subst; exact (Hne Hf))|(apply Hne; eapply finally_top_fut; [|exact Hn'|exact Hf]; exact Hn)].
+      * inversion Hs; subst. first [exact (Htd _ (with_running s false) eq_refl Hn')|(cbn [calls with_lst with_copen with_running] in Hn'; rewrite Hn in Hn'; inversion Hn'; subst; exact (Hne Hf))|(apply Hne; eapply finally_top_fut; [|exact Hn'|exact Hf]; exact Hn)].
   - exfalso. destruct (is_run (lst s)); [|discriminate]. unfold dispatch_msg in Hs. destruct ok; inversion Hs; subst.
     + rewrite Hn in Hn'. inversion Hn'; subst. exact (Hne Hf).
-    + exact (Htd _ s eq_refl Hn').
-  - exfalso. destruct (is_run (lst s)); [|discriminate]. inversion Hs; subst. exact (Htd _ (with_running s false) eq_refl Hn').
-  - exfalso. destruct (is_run (lst s)); [|discriminate]. inversion Hs; subst. exact (Htd _ s eq_refl Hn').
-  - exfalso. destruct (is_run (lst s)); [|discriminate]. inversion Hs; subst. exact (Htd _ (with_copen s false) eq_refl Hn').
-  - exfalso. destruct (lst s) as [| |e i d| |]; try discriminate. destruct d.
+    + first [exact (Htd _ s eq_refl Hn')|(cbn [calls with_lst with_copen with_running] in Hn'; rewrite Hn in Hn'; inversion Hn'; subst; exact (Hne Hf))|(apply Hne; eapply finally_top_fut; [|exact Hn'|exact Hf]; exact Hn)].
+  - exfalso. destruct (is_run (lst s)); [|discriminate]. inversion Hs; subst. first [exact (Htd _ (with_running s false) eq_refl Hn')|(cbn [calls with_lst with_copen with_running] in Hn'; rewrite Hn in Hn'; inversion Hn'; subst; exact (Hne Hf))|(apply Hne; eapply finally_top_fut; [|exact Hn'|exact Hf]; exact Hn)].
+  - exfalso. destruct (is_run (lst s)); [|discriminate]. inversion Hs; subst. first [exact (Htd _ s eq_refl Hn')|(cbn [calls with_lst with_copen with_running] in Hn'; rewrite Hn in Hn'; inversion Hn'; subst; exact (Hne Hf))|(apply Hne; eapply finally_top_fut; [|exact Hn'|exact Hf]; exact Hn)].
+  - exfalso. destruct (is_run (lst s)); [|discriminate]. inversion Hs; subst. first [exact (Htd _ (with_copen s false) eq_refl Hn')|(cbn [calls with_lst with_copen with_running] in Hn'; rewrite Hn in Hn'; inversion Hn'; subst; exact (Hne Hf))|(apply Hne; eapply finally_top_fut; [|exact Hn'|exact Hf]; exact Hn)].
+  - exfalso. destruct (lst s) as [| | |e i d| | |]; try discriminate. destruct d.
     + inversion Hs; subst. cbn [calls with_lst] in Hn'. rewrite Hn in Hn'. inversion Hn'; subst. exact (Hne Hf).
     + destruct (nth_error (pending s) i) as [j|]; inversion Hs; subst.
       * eapply Hsame; [|exact Hn']. intros x; right; right; eexists; reflexivity.
       * cbn [calls with_lst with_pending] in Hn'. rewrite Hn in Hn'. inversion Hn'; subst. exact (Hne Hf).
+  - exfalso. destruct (lst s) as [| |e| | | |]; try discriminate. inversion Hs; subst.
+    apply Hne. exact (finally_top_fut fl e s k c c' b Hn Hn' Hf).
+  - exfalso. destruct (lst s); try discriminate. inversion Hs; subst. cbn [calls] in Hn'.
+    rewrite Hn in Hn'. inversion Hn'; subst. exact (Hne Hf).
 Qed.
 
-(* T14.drain: once the listener has exited nobody waits for a future that nobody will resolve *)
-Theorem drain_invariant : forall fl c0 closers s, fl_ok fl -> reach fl (init c0 closers) s -> lst s = LExit ->
+(* T14.drain: once the listener has torn the connection down -- also while its finally is still awaiting on_close --
+   nobody waits for a future that nobody will resolve *)
+Definition torn_down (l : lstate) : Prop := l = LExit \/ l = LCloseWait.
+
+Theorem drain_invariant : forall fl c0 closers s, fl_ok fl -> reach fl (init c0 closers) s -> torn_down (lst s) ->
   writer s = false /\
   (forall k, In k (pending s) -> exists c, nth_error (calls s) k = Some c /\ c_fut c = FUnres /\
      (c_pc c = PRegd \/ c_pc c = PSched \/ c_pc c = PDone (RExc XAttr))) /\
   (forall k c, nth_error (calls s) k = Some c -> c_pc c = PAwait -> c_fut c <> FUnres).
 Proof.
   intros fl c0 closers s Hfl Hr Hl. pose proof (inv_reach fl c0 closers s Hfl Hr) as Hi.
+  assert (Hup : ph_up (lst s) = false) by (destruct Hl as [E|E]; rewrite E; reflexivity).
   assert (Haw : forall k c, nth_error (calls s) k = Some c -> c_pc c = PAwait -> c_fut c <> FUnres).
-  { intros k c Hn Hp Hf. pose proof (i_await s Hi k c Hn Hp Hf) as E. rewrite Hl in E. discriminate. }
-  split; [rewrite (i_writer s Hi), Hl; reflexivity|]. split; [|exact Haw].
+  { intros k c Hn Hp Hf. pose proof (i_await s Hi k c Hn Hp Hf) as E. rewrite Hup in E. discriminate. }
+  split; [exact (proj2 (i_writer s Hi) Hup)|]. split; [|exact Haw].
   intros k Hk. destruct (i_pend s Hi k Hk) as [c [Hn [Hf Hp]]]. exists c. split; [exact Hn|]. split; [exact Hf|].
   destruct Hp as [Hp|[Hp|[Hp|Hp]]]; auto. exfalso. exact (Haw k c Hn Hp Hf).
 Qed.
@@ -657,7 +731,7 @@ Theorem before_connect_prompt : forall fl c0 closers s, fl_ok fl -> reach fl (in
   (forall k c, nth_error (calls s) k = Some c -> c_pc c = PAwait -> c_fut c <> FUnres).
 Proof.
   intros fl c0 closers s Hfl Hr Hl. pose proof (inv_reach fl c0 closers s Hfl Hr) as Hi.
-  assert (Hw : writer s = false) by (rewrite (i_writer s Hi), Hl; reflexivity).
+  assert (Hw : writer s = false) by (apply (proj2 (i_writer s Hi)); rewrite Hl; reflexivity).
   split; [exact Hw|]. split; [|split].
   - intros k c Hn Hp. cbn [step]. rewrite Hn, Hp, Hw. eexists. reflexivity.
   - intros k c Hn Hp Ho Hc. cbn [step]. rewrite Hn, Hp, Hc, Ho. cbn. eexists. reflexivity.
@@ -669,37 +743,39 @@ Definition rank (p : pc) : nat :=
 
 (* ... and every caller that is under way has an enabled step of its own that moves it strictly forward:
    within four such steps it has returned or raised (ASend raises AttributeError because writer is None) *)
-Theorem drain_progress : forall fl c0 closers s k c, fl_ok fl -> reach fl (init c0 closers) s -> lst s = LExit ->
+Theorem drain_progress : forall fl c0 closers s k c, fl_ok fl -> reach fl (init c0 closers) s -> torn_down (lst s) ->
   nth_error (calls s) k = Some c -> c_pc c <> PIdle -> (forall r, c_pc c <> PDone r) ->
   exists a s' ev c', In a [ARegister k; ASchedule k; ASend k; AComplete k] /\ step fl s a = Some (s', ev) /\
-                     nth_error (calls s') k = Some c' /\ rank (c_pc c) < rank (c_pc c') /\ lst s' = LExit.
+                     nth_error (calls s') k = Some c' /\ rank (c_pc c) < rank (c_pc c') /\ lst s' = lst s.
 Proof.
   intros fl c0 closers s k c Hfl Hr Hl Hn Hni Hnd.
   destruct (drain_invariant fl c0 closers s Hfl Hr Hl) as [Hw [_ Haw]].
   assert (Hupd : forall f, nth_error (calls (updc s k f)) k = Some (f c)).
   { intros f. unfold updc, with_calls. cbn [calls]. rewrite nth_error_upd, Nat.eqb_refl, Hn. reflexivity. }
+  assert (Hlm : match lst s with LClean e i _ => LClean e i true | l => l end = lst s).
+  { destruct Hl as [E|E]; rewrite E; reflexivity. }
   destruct (c_pc c) eqn:Hp.
   - contradiction.
-  - exists (ARegister k). eexists. eexists. eexists. split; [cbn; tauto|]. cbn [step]. rewrite Hn, Hp, Hl.
+  - exists (ARegister k). eexists. eexists. eexists. split; [cbn; tauto|]. cbn [step]. rewrite Hn, Hp, Hlm.
     split; [reflexivity|]. cbn [calls with_lst with_pending lst]. rewrite Hupd. split; [reflexivity|]. cbn. split; [lia|reflexivity].
   - exists (ASchedule k). eexists. eexists. eexists. split; [cbn; tauto|]. cbn [step]. rewrite Hn, Hp.
-    split; [reflexivity|]. rewrite Hupd. split; [reflexivity|]. cbn. split; [lia|exact Hl].
+    split; [reflexivity|]. rewrite Hupd. split; [reflexivity|]. cbn. split; [lia|reflexivity].
   - exists (ASend k). eexists. eexists. eexists. split; [cbn; tauto|]. cbn [step]. rewrite Hn, Hp, Hw.
-    split; [reflexivity|]. rewrite Hupd. split; [reflexivity|]. cbn. split; [lia|exact Hl].
+    split; [reflexivity|]. rewrite Hupd. split; [reflexivity|]. cbn. split; [lia|reflexivity].
   - exists (AComplete k). pose proof (Haw k c Hn Hp) as Hf.
     destruct (c_fut c) eqn:Ef; [contradiction| |]; eexists; eexists; eexists; (split; [cbn; tauto|]); cbn [step]; rewrite Hn, Hp, Ef;
-      (split; [reflexivity|]); rewrite Hupd; (split; [reflexivity|]); cbn; (split; [lia|exact Hl]).
+      (split; [reflexivity|]); rewrite Hupd; (split; [reflexivity|]); cbn; (split; [lia|reflexivity]).
   - exfalso. exact (Hnd r eq_refl).
 Qed.
 
 (* =========================================================================== (3) the live-dict loop is refuted *)
-Definition fl_live : flags := mkFlags false true.
+Definition fl_live : flags := mkFlags false true false.
 
 (* calls 0 and 1 are waiting for their answers, call 2 has passed is_open(); the connection is lost; the cleanup
    loop fails future 0; call 2 registers its future; the next iteration raises RuntimeError out of _run *)
 Definition race_trace : list label :=
   [AConnect true; AInvoke 0; ARegister 0; ASchedule 0; ASend 0; AInvoke 1; ARegister 1; ASchedule 1; ASend 1; AInvoke 2;
-   ACut; AClean; ARegister 2; AClean; ASchedule 2; ASend 2; AComplete 0].
+   ACut; AErrDone; AClean; ARegister 2; AClean; ASchedule 2; ASend 2; AComplete 0].
 
 Lemma race_refuted : exists s h,
   exec fl_live (init_cfg true 3 0) race_trace = Some (s, h) /\ quiescent fl_live s = true /\
@@ -713,8 +789,25 @@ Qed.
 
 (* the same schedule is harmless when a copy is iterated *)
 Lemma race_harmless_with_snapshot : exists s h,
-  exec (mkFlags true true) (init_cfg true 3 0)
+  exec (mkFlags true true false) (init_cfg true 3 0)
        [AConnect true; AInvoke 0; ARegister 0; ASchedule 0; ASend 0; AInvoke 1; ARegister 1; ASchedule 1; ASend 1; AInvoke 2;
-        ACut; ARegister 2; ASchedule 2; ASend 2; AComplete 0; AComplete 1] = Some (s, h) /\
-  quiescent (mkFlags true true) s = true /\ check_history 3 h = true.
+        ACut; AErrDone; ARegister 2; ACloseDone; ASchedule 2; ASend 2; AComplete 0; AComplete 1] = Some (s, h) /\
+  quiescent (mkFlags true true false) s = true /\ check_history 3 h = true.
 Proof. eexists. eexists. split; [vm_compute; reflexivity|]. split; vm_compute; reflexivity. Qed.
+
+(* self.writer = None moved to after `await on_close(self)`: a call made while the on_close handler is parked passes
+   is_open() (a connection the peer closed is only half-closed), is written into the dead stream AFTER the cleanup has run,
+   and waits forever *)
+Definition fl_late_reset : flags := mkFlags true false true.
+Definition late_reset_trace : list label :=
+  [AConnect true; ACut; AErrDone; AInvoke 0; ARegister 0; ASchedule 0; ASend 0; ACloseDone].
+
+Lemma late_writer_reset_refuted : exists s h,
+  exec fl_late_reset (init_cfg true 1 0) late_reset_trace = Some (s, h) /\ quiescent fl_late_reset s = true /\
+  check_history 1 h = false /\ lst s = LExit /\ writer s = false /\
+  exists c, nth_error (calls s) 0 = Some c /\ c_pc c = PAwait /\ c_fut c = FUnres /\ c_sent c = true.
+Proof.
+  eexists. eexists. split; [vm_compute; reflexivity|].
+  split; [vm_compute; reflexivity|]. split; [vm_compute; reflexivity|]. split; [reflexivity|]. split; [reflexivity|].
+  eexists. split; [reflexivity|]. repeat split.
+Qed.
